@@ -30,6 +30,31 @@ def theorem_names(src):
     return re.findall(r"^\s*(?:Theorem|Lemma|Corollary)\s+([A-Za-z0-9_']+)", fw.strip_comments(src), re.M)
 
 
+def theorem_at_line(src, line):
+    """Name of the Theorem whose statement/proof contains source line `line` (1-based) of the props file."""
+    name = None
+    for k, l in enumerate(src.split("\n"), 1):
+        m = re.match(r"\s*(?:Theorem|Lemma|Corollary)\s+([A-Za-z0-9_']+)", l)
+        if m:
+            name = m.group(1)
+        if k >= line:
+            break
+    return name
+
+
+def importers(proj_failed):
+    """Glue*.v files (and hence the theorems resting on them) that import the failed project directly."""
+    logical = fw.project_logical(proj_failed) if os.path.exists(os.path.join(fw.project_dir(proj_failed), "_CoqProject.head")) else None
+    if not logical:
+        return []
+    hits = []
+    d = fw.project_dir(PROJ)
+    for f in sorted(os.listdir(d)):
+        if f.endswith(".v") and logical in open(os.path.join(d, f)).read():
+            hits.append(f)
+    return hits
+
+
 def check_glue(ctx):
     """Returns dict(ok, theorems, closed, axioms, imports, failing)."""
     work = os.path.join(ctx.work, "glue")
@@ -51,8 +76,17 @@ def check_glue(ctx):
     if not ok:
         for t in names:
             ctx.oblige("glue theorem %s (coq/%s/props/%s.v)" % (t, PROJ, PROPS), False)
-        ctx.violation(dict(kind="coq-build-failed", broken="first failing file: %s (every glue theorem rests on it)" % where,
-                           theorems=names, log=log[-3000:]), nofail=True, tag="glue")
+        broken = "first failing file: %s" % where
+        m = re.match(r"glue/(?:\./)?props/%s\.v:(\d+)" % PROPS, where or "")
+        if m:
+            res["failing"] = theorem_at_line(src, int(m.group(1)))
+            broken = "coq/%s/props/%s.v: theorem %s no longer checks (line %s)" % (PROJ, PROPS, res["failing"], m.group(1))
+        else:
+            failed_proj = (where or "").split("/")[0]
+            if failed_proj and failed_proj != PROJ:
+                broken += " - project coq/%s does not build; glue files importing it: %s" % (failed_proj, ", ".join(importers(failed_proj)) or "?")
+        ctx.violation(dict(kind="coq-build-failed", broken=broken, theorem=res["failing"], theorems=names, log=log[-3000:]),
+                      nofail=True, tag="glue")
         return res
 
     shutil.copy(pf, os.path.join(work, PROPS + "_recheck.v"))
